@@ -1,7 +1,7 @@
 from props_util import D
 
 BIG_GRAM = ['ext=0', 'maxparts=2', 'date3=1', 'menucap=0', 'intervals=1,2,3', 'anchors=8', 'terms=full', 'ks=full']
-TRIPLES = ['ext=0', 'maxparts=3', 'menucap=3', 'intervals=1,2', 'anchors=8', 'terms=full', 'ks=full']
+TRIPLES = ['ext=0', 'maxparts=3', 'menucap=3', 'intervals=1,2', 'anchors=6', 'terms=full', 'ks=full']
 
 
 def register(PROPS):
@@ -40,7 +40,7 @@ def register(PROPS):
             'thorough': 'map: all 65536 subsets x 2 x 2 x 2; position: table + grammar with every pair of BY parts and every date-part triple '
                         '(YEARLY..DAILY; HOURLY..SECONDLY single parts), all menu values, INTERVAL 1,2,3, 8 anchors, terminations {none, '
                         'COUNT=3,65,130, UNTIL}, full k list, both written forms for the table; + every triple of BY parts over the first 3 '
-                        'menu values, INTERVAL 1,2, 8 anchors; echsq path on table + grammar slice and '
+                        'menu values, INTERVAL 1,2, 6 anchors; echsq path on table + grammar slice and '
                         'subsets <= 2; binaries on table + grammar slice with the full k list; geometry: every padding 0..4300 and 0..1100, '
                         'both forms, k = 0 and 70; ASan: table + grammar slice, geometry every padding, map subsets <= 2',
         },
